@@ -1,14 +1,14 @@
 #!/bin/bash
 # confirm_seed.sh C12 : re-verify a sub-agent's seeded change in its scratch worktree, then copy it to /verif/seeded/
-id=$1; wt=/tmp/wt/$id
+id=$1; wt=${WTROOT:-/tmp/wt}/$id
 cd $wt || exit 9
 git checkout -q -- src; make -s >/dev/null 2>&1
-echo "--- without the change:"; ( cd SEED && timeout 300 bash ./run.sh >/tmp/wt/$id.clean.log 2>&1 ); rc0=$?; echo "run.sh exit $rc0"
+echo "--- without the change:"; ( cd SEED && timeout 300 bash ./run.sh >/tmp/$id.clean.log 2>&1 ); rc0=$?; echo "run.sh exit $rc0"
 git apply SEED/patch.diff || { echo "patch does not apply"; exit 8; }
 make -s >/dev/null 2>&1 || { echo "does not build"; git checkout -q -- src; exit 7; }
-echo "--- with the change:"; ( cd SEED && timeout 300 bash ./run.sh >/tmp/wt/$id.seeded.log 2>&1 ); rc1=$?; echo "run.sh exit $rc1"; tail -3 /tmp/wt/$id.seeded.log | cut -c1-200
+echo "--- with the change:"; ( cd SEED && timeout 300 bash ./run.sh >/tmp/$id.seeded.log 2>&1 ); rc1=$?; echo "run.sh exit $rc1"; tail -3 /tmp/$id.seeded.log | cut -c1-200
 echo "--- make check with the change:"; make check 2>&1 | grep -E "^# (PASS|FAIL|ERROR)" | tr '\n' ' '; echo
 git checkout -q -- src; make -s >/dev/null 2>&1
-mkdir -p /verif/seeded/$id
-cp SEED/patch.diff /verif/seeded/$id/; for f in SEED/*.c SEED/run.sh SEED/NOTES.md SEED/*.sh; do [ -f "$f" ] && cp "$f" /verif/seeded/$id/; done
+mkdir -p /verif/seeded/${SEEDNAME:-$id}
+cp SEED/patch.diff /verif/seeded/${SEEDNAME:-$id}/; for f in SEED/*.c SEED/run.sh SEED/NOTES.md SEED/*.sh; do [ -f "$f" ] && cp "$f" /verif/seeded/${SEEDNAME:-$id}/; done
 echo "clean=$rc0 seeded=$rc1"
